@@ -46,7 +46,7 @@ struct LeafThrow {};
 struct NB
 {
   long nb_idx = 0;
-  template <class... A> long nbody(A&&... a);
+  template <class... A> long nbody(A&&... a) const;
   long n0() { return nbody(); }
   long n1v(Obj a) { return nbody(a); }
   long n1r(Obj& a) { return nbody(a); }
@@ -60,6 +60,20 @@ struct NB
   long n2cv(const Obj& a, Obj b) { return nbody(a, b); }
   long n2cr(const Obj& a, Obj& b) { return nbody(a, b); }
   long n2cc(const Obj& a, const Obj& b) { return nbody(a, b); }
+  // const methods
+  long cn0() const { return nbody(); }
+  long cn1v(Obj a) const { return nbody(a); }
+  long cn1r(Obj& a) const { return nbody(a); }
+  long cn1c(const Obj& a) const { return nbody(a); }
+  long cn2vv(Obj a, Obj b) const { return nbody(a, b); }
+  long cn2vr(Obj a, Obj& b) const { return nbody(a, b); }
+  long cn2vc(Obj a, const Obj& b) const { return nbody(a, b); }
+  long cn2rv(Obj& a, Obj b) const { return nbody(a, b); }
+  long cn2rr(Obj& a, Obj& b) const { return nbody(a, b); }
+  long cn2rc(Obj& a, const Obj& b) const { return nbody(a, b); }
+  long cn2cv(const Obj& a, Obj b) const { return nbody(a, b); }
+  long cn2cr(const Obj& a, Obj& b) const { return nbody(a, b); }
+  long cn2cc(const Obj& a, const Obj& b) const { return nbody(a, b); }
 };
 
 struct Tr : public NB, public sigc::trackable
@@ -67,7 +81,7 @@ struct Tr : public NB, public sigc::trackable
   long idx;
   explicit Tr(long i) : idx(i) { nb_idx = i; }
   // member functions used as mem_fun leaves: one per combination of parameter kinds (<= 2 params)
-  template <class... A> long body(A&&... a);
+  template <class... A> long body(A&&... a) const;
   long m0() { return body(); }
   long m1v(Obj a) { return body(a); }
   long m1r(Obj& a) { return body(a); }
@@ -81,6 +95,20 @@ struct Tr : public NB, public sigc::trackable
   long m2cv(const Obj& a, Obj b) { return body(a, b); }
   long m2cr(const Obj& a, Obj& b) { return body(a, b); }
   long m2cc(const Obj& a, const Obj& b) { return body(a, b); }
+  // const methods
+  long cm0() const { return body(); }
+  long cm1v(Obj a) const { return body(a); }
+  long cm1r(Obj& a) const { return body(a); }
+  long cm1c(const Obj& a) const { return body(a); }
+  long cm2vv(Obj a, Obj b) const { return body(a, b); }
+  long cm2vr(Obj a, Obj& b) const { return body(a, b); }
+  long cm2vc(Obj a, const Obj& b) const { return body(a, b); }
+  long cm2rv(Obj& a, Obj b) const { return body(a, b); }
+  long cm2rr(Obj& a, Obj& b) const { return body(a, b); }
+  long cm2rc(Obj& a, const Obj& b) const { return body(a, b); }
+  long cm2cv(const Obj& a, Obj b) const { return body(a, b); }
+  long cm2cr(const Obj& a, Obj& b) const { return body(a, b); }
+  long cm2cc(const Obj& a, const Obj& b) const { return body(a, b); }
 };
 // a trackable reached through a virtual base (limit_reference must visit the right sub-object)
 struct TrVirtBase : virtual public sigc::trackable { long pad = 7; };
@@ -122,8 +150,8 @@ long log_call(long id, A&&... a)
   return id * 1000 + w.sum;
 }
 
-template <class... A> long Tr::body(A&&... a) { return log_call(500 + idx, std::forward<A>(a)...); }
-template <class... A> long NB::nbody(A&&... a) { return log_call(500 + nb_idx, std::forward<A>(a)...); }
+template <class... A> long Tr::body(A&&... a) const { return log_call(500 + idx, std::forward<A>(a)...); }
+template <class... A> long NB::nbody(A&&... a) const { return log_call(500 + nb_idx, std::forward<A>(a)...); }
 
 struct Leaf
 {
